@@ -323,7 +323,11 @@ func canonicalKey(s string) string {
 func squash(v string) string { return squashFold(v, true) }
 
 // squashFold is squash with or without the folding of letter case.
-func squashFold(v string, fold bool) string {
+func squashFold(v string, fold bool) string { return squashOpt(v, fold, true) }
+
+// squashOpt: alias = the content-coding aliases (x-gzip, x-compress) are names of the same thing;
+// only so in fields that carry content codings, not in a field that is opaque to a cache.
+func squashOpt(v string, fold, alias bool) string {
 	parts := strings.Split(v, ",")
 	for i, p := range parts {
 		// byte-wise (ASCII case folding, SP / HTAB removed): strings.ToLower and strings.Map
@@ -343,10 +347,10 @@ func squashFold(v string, fold bool) string {
 		// the aliases of RFC 9110 §8.4.1 are names of codings: a member that IS one, not
 		// every member that contains its text ("lx-gzip" is no spelling of "lgzip")
 		name, rest, _ := strings.Cut(p, ";")
-		switch name {
-		case "x-gzip":
+		switch {
+		case alias && name == "x-gzip":
 			name = "gzip"
-		case "x-compress":
+		case alias && name == "x-compress":
 			name = "compress"
 		}
 		if len(rest) > 0 || strings.HasSuffix(p, ";") {
@@ -455,7 +459,7 @@ func SurelyDifferentIn(field string, a, b []string) bool {
 	if strings.Contains(ja, ";") || strings.Contains(jb, ";") {
 		return false
 	}
-	return squashFold(ja, false) != squashFold(jb, false)
+	return squashOpt(ja, false, false) != squashOpt(jb, false, false)
 }
 
 // OnlyRefusals reports whether every member of the (non-empty) value carries the weight 0:
